@@ -117,7 +117,11 @@ Print Assumptions C07_exact_run_only_deadline.
    responses, take the queries; no CtxDone; repaired variant fix_queries) is an admissible run from the initial state in which every member of H invokes the continuation with
    sort H.  PARTIAL because real time is a premise, not modelled: the deadline must not come before such a schedule
    is through (two probe intervals plus message delays), links deliver in FIFO order, and the run is this schedule
-   rather than an arbitrary fair one. *)
+   rather than an arbitrary fair one.  Tick is an arbitrary event of the model; that "every member ticks again within
+   its OWN probe interval, whatever it receives in the meantime" is the fairness premise on the implementation (a
+   ticker, not a timer re-armed by every arrival).  The harness exercises it with unequal intervals per member
+   (whole-run class "probes": ratios 1:100 and 1:10, one fast prober among slow ones and vice versa, deadline a dozen
+   slow intervals) under the "exact honest run => everybody completes" monitor. *)
 Theorem C07_live_partial :
   forall (tp : N) (mem : list N) (fx fs : bool) (H : list N),
   NoDup H -> incl H mem -> (2 <= length H)%nat ->
